@@ -281,6 +281,10 @@ class lengthtest(Command):
         a = tex.readDimen()
         relation = next(tex.itertokens())
         b = tex.readDimen()
+        # Lengths that are equal up to floating point noise (see above)
+        # are equal for < and > as well
+        if abs(a - b) < 1e-6:
+            b = a
         if relation == '<':
             return [_true() if a < b else _false()]
         elif relation == '>':
